@@ -39,6 +39,40 @@ ENVMODES = ['upper', 'lower', 'combined']
 INTERPS = ['splrep', 'pchip', 'mono_pchip']
 
 
+def check_extrema_bigint(ctx, rng):
+    """Integer recordings whose values exceed 2**53 (nanosecond time stamps, 64-bit counters): neighbouring samples differ by less
+    than the spacing of float64 there, integer comparison is still exact - the strict extrema are those of the integers."""
+    from emd import sift as S
+    n = int(rng.integers(30, 400))
+    base = int(gens.pick(rng, [2 ** 60, -2 ** 60, 2 ** 55 + 12345, 18 * 10 ** 17]))
+    wig = np.round(40 * np.sin(2 * np.pi * np.arange(n) / float(rng.uniform(5, 12))) + rng.integers(-6, 7, n)).astype(np.int64)
+    for mode in MODES:
+        _bigint_mode(ctx, base, wig, mode)
+
+
+def _bigint_mode(ctx, base, wig, mode):
+    from emd import sift as S
+    wig = np.asarray(wig, dtype=np.int64)
+    xi = (np.int64(base) + wig).astype(np.int64)
+    n = len(xi)
+    if True:
+        y = xi if mode == 'peaks' else (-xi if mode == 'troughs' else np.abs(xi))
+        rl = np.array([i for i in range(1, n - 1) if y[i] > y[i - 1] and y[i] > y[i + 1]], dtype=int)
+        case = {'kind': 'bigint', 'base': base, 'wiggle': wig, 'mode': mode}
+        ctx.case(digest(xi, mode, 'bigint'), len(rl) > 1)
+        ctx.count('huge_integer_recordings_checked')
+        try:
+            locs, mags = S.get_padded_extrema(xi.copy(), pad_width=0, mode=mode)
+        except Exception as e:
+            ctx.violation('extrema-exception:%s' % type(e).__name__, 'get_padded_extrema raised %s: %s on an int64 recording' % (type(e).__name__, str(e)[:100]), case)
+            return
+        if len(rl) <= 1:
+            return
+        if locs is None or not np.array_equal(np.asarray(locs), rl):
+            ctx.violation('extrema-interior:huge-integers', 'the %s of an int64 recording around %g are not its strict local extrema: %s found, %d exist'
+                          % (mode, float(base), 'none' if locs is None else len(locs), len(rl)), case)
+
+
 def check_extrema(ctx, x, pad, mode, parabolic, mag_pad_opts=None, tag='enum'):
     from emd import sift as S
     xin, x = x, np.asarray(x, dtype=float)
@@ -129,7 +163,10 @@ def check_extrema(ctx, x, pad, mode, parabolic, mag_pad_opts=None, tag='enum'):
         if np.min(np.abs(allv)) < 1e-9 or np.min(np.abs(allv - n)) < 1e-9:
             ctx.count('padding_round_decided_by_rounding')
             return
-    if len(L) != len(locs) or not np.allclose(L, locs, rtol=0, atol=1e-9) or not np.allclose(M, mags, rtol=0, atol=1e-9 * scale):
+    # (refined locations agree with the reference to 1e-9 in the interior - checked above; every padding round mirrors them about
+    # an edge location, 2*edge - loc, so the admissible difference grows by 2e-9 per round)
+    tol_pad = 1e-9 * (3 + 2 * (off // max(w, 1))) if parabolic else 1e-9
+    if len(L) != len(locs) or not np.allclose(L, locs, rtol=0, atol=tol_pad) or not np.allclose(M, mags, rtol=0, atol=1e-9 * scale):
         ctx.violation('extrema-padding', 'padded extrema differ from the documented padding rule: got %s / %s, expected %s / %s'
                       % (np.round(locs, 3).tolist()[:10], np.round(mags, 3).tolist()[:10], np.round(L, 3).tolist()[:10], np.round(M, 3).tolist()[:10]), case)
         return
@@ -238,6 +275,8 @@ def _run_shard(ctx):
     ctx.count('exhaustive_done')
     # ---- random part
     n = NRANDOM[ctx.tier] // ctx.nshards
+    for _ in range(6):
+        check_extrema_bigint(ctx, rng)
     for i in range(n):
         if ctx.out_of_time():
             break
@@ -281,6 +320,8 @@ def finalize(agg, tier):
 def replay(ctx, case):
     global PADMON
     from emd import sift as S
+    if case['kind'] == 'bigint':
+        return _bigint_mode(ctx, case['base'], case['wiggle'], case['mode'])
     x = np.asarray(case['x'], dtype=float)
     with PadStepMonitor(S) as PADMON:
         _replay(ctx, case, x)
